@@ -23,6 +23,8 @@ CLAIMED = {
              note="Trusted: TLC, integer exactness of the realisation (all values exact in binary64), drivers/rowframe.py projection. Single-sub-model documents (routing is C13)."),
  "C10": dict(engine="Suff", design="6 C10", text="SuffDefs.tla states every published criterion on integers (span, countable days = span-1, 10*valid < 9*span, per-month rules with the civil calendar of Cal.tla under both readings of 'calendar month', negative non-electric usage) as Must/May verdict sets and the list of warning-only names; Suff.tla enumerates class x role x fuel x start x span x gap counts at every threshold -1/0/+1 x placements and checks the oracle's threshold theorems; a seeded sample (thorough: 12k x 4 variants) is realised as real daily / billing / hourly data objects through both entry points and the reported disqualification names are judged by TLC (SuffTrace).",
              note="Trusted: TLC, Cal.tla, drivers/suff.py. First/last day always valid; exact-threshold cases in DST-free zones; billing usage gaps left to C08. Open finding: off-cycle reads filed as disqualification by the billing classes."),
+ "C11": dict(engine="Curve", design="6 C11", text="CurveDefs.tla states the documented piecewise formula from a stored sub-model's parameters alone on exact rationals (Rat.tla): base load on the flat part, exact straight lines on unsmoothed sides, and for smoothed sides the bounds asymptote <= curve <= line through the shifted balance point with the smoothing widths derived by rational algebra (renormalisation above 1, 1 % floor), curve >= base load, monotone outwards, gap to the asymptote never growing outwards, loads non-negative / exclusive / additive / on the right side; Curve.tla checks the formula's own theorems (ordered bounds, continuity at the balance points, monotone bounds) with TLC and enumerates the seven shapes over a parameter grid with probes on and around every landmark; each document is loaded with from_dict and swept through DailyModel and BillingModel.predict, projected to floor/ceiling of 1000x and to exact rationals, and judged by TLC (CurveTrace).",
+             note="Trusted: TLC, Rat.tla, drivers/curve.py. The value of the exponential is not computed by the specification: smoothed sides are bounded, not pinned (bound width = slope x smoothing width far from the balance point)."),
  "C13": dict(engine="Split", design="6 C13", text="SplitDefs.tla states exact cover of the (season x day-type) calendar, presence of the unsplit model, forbidden / unsupported splits, the routing function RouteIdx (civil calendar + season and weekday maps) and the selection clause, plus an I-layer of the candidate generator on sets; Split.tla checks with TLC that the generator equals the closed form (48 candidates), that every kept candidate is an exact cover and respects flags and support for all 16 flag vectors x support classes, and that every date has one route. Candidate cases run the real DailyModel._combinations(), routing cases predict constructed split documents for every day of every month of 2023/2024 under 3x3 maps, selection cases are real fits; all judged by TLC (SplitTrace).",
              note="Trusted: TLC, Cal.tla, drivers/split.py (string parsing of split names, stub tidd sub-models with distinct constants). Completeness of the candidate list is not demanded (not in the statement)."),
  "C14": dict(engine="Settings", design="6 C14", text="SettingsTable.tla pins, as literal TLA+, the approved constant, developer flag, a valid alternative and an invalid value of all 174 fields of the current / legacy / billing / hourly settings trees; SettingsDefs.tla states the lock (developer field + alternative without developer mode => rejected), rejection of invalid values, acceptance of permitted ones with only the requested field changed, 14 cross-field cases and stored-settings equality; Settings.tla enumerates the whole space (5.6k constructions) which is replayed exhaustively on real DailyModel / BillingModel / HourlyModel constructors, every outcome judged by TLC (SettingsTrace).",
